@@ -22,6 +22,8 @@ DECIDED_MORE = ("Also: no rejection after the first store into a route's method 
 DECIDED = DECIDED + ' ' + DECIDED_MORE
 DECIDED_R6 = ('Round 6: a node is folded into its child only for exactly one child; every (name, route) is examined on removal; the hook set installed and the one the tree delivers are one object.')
 DECIDED = DECIDED + ' ' + DECIDED_R6
+DECIDED_R7 = ("Round 7: remove(hooks_only=True) leaves a route alone; route name bound after the last rejecting call; no slot cleared after a merge; registered Route fresh or the tree's.")
+DECIDED = DECIDED + ' ' + DECIDED_R7
 NOT_DECIDED = ('equality with a freshly built router over all edit histories (correctness of node splitting / merging beyond '
                'the pairing rules); prefix-wildcard removal of hooks (specified for routes only).')
 ASSUMPTIONS = ['list/dict operations behave as in CPython']
